@@ -56,10 +56,17 @@ def run(repo, R):
                 return {"exps": a, "angmom": l, "angmom_components_cart": nc}[e.attr]
             return super().expr(e)
     ev = E(f, {}, handlers={"factorial2": lambda i, c_: sp.Function("F2")(i.expr(c_.args[0]))}, rule="NORMSIB")
+    comps = sp.symbols("a_x a_y a_z", integer=True, nonnegative=True)
+    ev.component_symbols = (nc, comps)
     ev.run()
     got = ev.returns[0][1]
     F2 = sp.Function("F2")
     want = (2 * a / sp.pi) ** sp.Rational(3, 4) * (4 * a) ** (l / 2) / sp.sqrt(Prod(F2(2 * nc - 1)))
+
+    def spell(e):
+        # the product over the component axis written out for x, y, z (a column picked by a constant index is already written so)
+        return e.replace(lambda z: isinstance(z, Prod), lambda z: sp.Mul(*[z.args[0].subs(nc, c_) for c_ in comps]))
+    got, want = spell(got), spell(want)
     R.check(sp.simplify(got / want - 1) == 0, "NORMSIB", f.site, "norm_prim_cart == (2a/pi)^(3/4) (4a)^(l/2) / sqrt(prod_c (2 n_c - 1)!!)",
             "norm_prim_cart is no longer the closed form that the one- and two-electron kernels apply in two pieces (exponent part before the contraction, "
             "component part at the end): integrals and evaluations would be normalised differently", where=f.where(), expected=str(want), found=str(got))
